@@ -120,7 +120,10 @@ Derive(td) ==
        LET fs == FieldSeq(td, td.fields, "f") IN
        LevelOf(<<>>, [kind |-> "cmd", optional |-> FALSE, else_pos |-> <<>>,
                       cmds |-> <<[names |-> <<IF td.cmdname # "" THEN td.cmdname ELSE Kebab(td.tchars)>>, shorts |-> <<>>, adjacent |-> FALSE, help |-> td.help,
-                                  nchars |-> <<>>, level |-> LevelOf(fs.named, TailOf(fs.pos), FALSE, td.help)]>>],
+                                  nchars |-> <<>>,
+                                  \* (`usage(..)` next to `command`: the usage line of the command's own help)
+                                  level |-> LevelOf(fs.named, TailOf(fs.pos), FALSE, td.help)
+                                            @@ (IF "usage" \in DOMAIN td /\ td.usage # "" THEN [usage |-> td.usage] ELSE <<>>)]>>],
                FALSE, "")
   ELSE IF \A k \in DOMAIN td.variants : td.variants[k].command
   THEN \* every variant is a subcommand named after it; its fields form the subcommand's own parser
